@@ -72,7 +72,11 @@ RULE = ('correspondence on whole packets through opus_decode: (a) arbitrary, low
         'distinct = (op, outcome) classes')
 NOT_COVERED = [
     'PCM within the RFC 6716 tolerance of the normative reference decoder: not decidable by this technique offline (no reference '
-    'decoder, no test vectors, no formal float semantics); the self-reference corpus is a regression oracle only',
+    'decoder, no test vectors, no formal float semantics). The PCM clause is guarded by a REGRESSION CORPUS ONLY: ~60 short streams '
+    'decoded by the tree under test and compared with what the unchanged tree produced (bit-exact at 48 kHz, opus_compare at the other '
+    'rates). The streams were chosen to excite decoder-side clamps / saturations / state clearing (bandwidth ladders in mono and '
+    'stereo, pitch at the 2 ms / 18 ms limits, hard-panned full-scale stereo, full-scale and +/-1 LSB material, onsets after silence, '
+    'every mode transition), but a corpus can never be complete: a decoder change that only manifests on material outside it is missed',
     'CELT: the decoded PVQ vectors, collapse masks, folding, anti-collapse processing and all of the DSP (only what decides '
     'which symbols are read with which parameters is modelled); the band-allocation tables are C17\'s (read from the '
     'regenerated Gen/CeltTables.lean by OpusModel/CeltAlloc.lean; their frozen copy is compared by celtHdr_tables_frozen_eq_repo)',
@@ -152,7 +156,7 @@ def _build_opus_compare():
 def corpus_check(ctx, h, collect=False):
     """Decode the committed packets with the tree under test at every output rate / channel count and compare with the
     committed reference PCM (produced once by the unchanged tree at 48 kHz) using the repo's own opus_compare."""
-    res = {'streams': 0, 'comparisons': 0, 'min_q': None, 'exact_48k': 0, 'fails': [], 'notes': [], 'all_q': {}}
+    res = {'streams': 0, 'comparisons': 0, 'min_q': None, 'exact_48k': 0, 'fails': [], 'notes': [], 'all_q': {}, 'all_exact': {}}
     idx = os.path.join(CORPUS, 'streams.txt.gz')
     if not os.path.exists(idx):
         res['notes'].append('no corpus committed')
@@ -167,6 +171,7 @@ def corpus_check(ctx, h, collect=False):
     for st in streams:
         nbytes = st['samples48'] * 2 * st['refch']
         ref = ref_all[pos:pos + nbytes]
+        ref_native = ref
         pos += nbytes
         if st['refch'] == 1:      # opus_compare wants a stereo reference: a mono stream decodes to L == R
             import array
@@ -183,13 +188,30 @@ def corpus_check(ctx, h, collect=False):
             for ch in (1, 2):
                 key = '%s/%d/%d' % (st['name'], rate, ch)
                 base = calib.get(key)
-                if base is None or base.get('skip'):
+                if base is None or (base.get('skip') and not base.get('exact')):
                     continue
                 outp = os.path.join(work, 'out.s16')
                 rc, out = common.sh([h, 'corpusdec', pk, str(rate), str(ch), outp])
                 if rc != 0:
                     res['fails'].append({'key': key, 'why': 'decode failed: ' + out[-300:]})
                     continue
+                # (1) exact comparison at 48 kHz: stereo decode against the (L == R expanded) reference, mono decode of a mono
+                #     stream against the mono reference.  Required wherever the unchanged tree was bit-identical (calibration).
+                exact = None
+                if rate == 48000 and (ch == 2 or st['refch'] == 1):
+                    got = open(outp, 'rb').read()
+                    want = ref if ch == 2 else ref_native
+                    exact = got == want
+                    res['exact_48k'] += 1 if exact else 0
+                    if collect:
+                        res['all_exact'][key] = exact
+                    elif base.get('exact') and not exact:
+                        res['fails'].append({'key': key, 'why': 'PCM at 48 kHz is not bit-identical to the committed reference (it was on '
+                                             'the unchanged tree): ' + _pcm_diff_bytes(got, want, ch)})
+                        continue
+                if base.get('skip'):
+                    continue
+                # (2) tolerance verdict of the repo's own opus_compare at every rate
                 args = [cmp_exe] + (['-s'] if ch == 2 else []) + ['-r', str(rate), refp, outp]
                 rc, out = common.sh(args)
                 m = re.search(r'quality metric: ([-\d.]+) %', out)
@@ -198,8 +220,6 @@ def corpus_check(ctx, h, collect=False):
                 if collect:
                     res['all_q'][key] = q if rc == 0 else None
                     continue
-                if rate == 48000 and ch == 2 and open(outp, 'rb').read() == ref:
-                    res['exact_48k'] += 1
                 if rc != 0 or q is None:
                     mm = re.search(r'weighted error is ([-\d.eE+]+)', out)
                     res['fails'].append({'key': key, 'why': 'opus_compare: FAILS (%s), baseline quality on the unchanged tree was %.1f %%; %s'
@@ -212,6 +232,20 @@ def corpus_check(ctx, h, collect=False):
                         res['notes'].append('%s: quality %.1f %% is more than 5 points below the baseline %.1f %% (still within the RFC threshold)'
                                             % (key, q, base['q']))
     return res
+
+
+def _pcm_diff_bytes(got, want, ch):
+    import array
+    a = array.array('h'); a.frombytes(got[:len(got) // 2 * 2])
+    b = array.array('h'); b.frombytes(want[:len(want) // 2 * 2])
+    n = min(len(a), len(b))
+    first = next((i for i in range(n) if a[i] != b[i]), None)
+    if first is None:
+        return 'lengths differ: %d vs %d samples' % (len(a) // ch, len(b) // ch)
+    worst = max(range(n), key=lambda i: abs(a[i] - b[i]))
+    ndiff = sum(1 for i in range(n) if a[i] != b[i])
+    return ('first difference at sample %d (channel %d, t = %.4f s): %d vs reference %d; %d of %d samples differ, largest |diff| = %d at sample %d'
+            % (first // ch, first % ch, first // ch / 48000.0, a[first], b[first], ndiff, n, abs(a[worst] - b[worst]), worst // ch))
 
 
 def _first_pcm_diff(h, pk, ref, work):
@@ -271,16 +305,20 @@ def search(ctx):
                     'input': 'corpus/C03 stream/output rate/channels %s (packets: the `S %s` block of corpus/C03/streams.txt.gz; decode with '
                              '`c03_silksyms corpusdec`, compare with src/opus_compare.c against corpus/C03/ref48.s16.gz)'
                              % (f['key'], f['key'].split('/')[0]),
-                    'expected': 'decoded PCM within the opus_compare threshold of the committed self-reference PCM (regression oracle)',
+                    'expected': 'decoded PCM bit-identical at 48 kHz to, and at the other rates within the opus_compare threshold of, the '
+                                'committed self-reference PCM (regression oracle)',
                     'observed': f['why'],
-                    'why': 'decoded PCM of a committed packet stream left the RFC 6716 opus_compare tolerance relative to the PCM the '
-                           'unchanged tree produced (self-reference regression oracle, not the RFC vectors)'})
+                    'why': 'decoded PCM of a committed packet stream differs from the PCM the unchanged tree produced: not bit-identical at '
+                           '48 kHz, or outside the RFC 6716 opus_compare tolerance at another rate (self-reference regression oracle, not the '
+                           'RFC vectors)'})
     return {'cases': cases + cor['comparisons'], 'distinct': 6,
             'oracle': 'implementation only: OPUS_GET_FINAL_RANGE of the decoder == that of the encoder for every packet of real encoder '
                       'streams (SILK/hybrid/CELT, all bandwidths and durations, stereo, FEC, DTX, transitions) and for repacketised, '
                       'padded multi-frame packets (last frame); self-reference PCM corpus (regression oracle, NOT the RFC vectors): %d '
-                      'streams decoded at 5 rates x 2 channel counts compared with src/opus_compare.c at the RFC threshold' % cor['streams'],
-            'final_range': info, 'corpus': {k: v for k, v in cor.items() if k not in ('fails', 'all_q')},
+                      'streams (steady state, mode/bandwidth transitions, onsets, and boundary-exciting streams: bandwidth ladders mono/stereo, '
+                      'pitch extremes, hard-panned full-scale stereo, energy extremes) decoded at 5 rates x 2 channel counts: bit-exact '
+                      'comparison at 48 kHz, src/opus_compare.c at the RFC threshold at every rate' % cor['streams'],
+            'final_range': info, 'corpus': {k: v for k, v in cor.items() if k not in ('fails', 'all_q', 'all_exact')},
             'samples': ['search %d %d -> %d packets, %d violations; %s' % (ctx.seed, n, cases, len(wit), info),
                         'corpus: %d streams, %d comparisons, min quality %s %%, %d bit-exact at 48 kHz stereo'
                         % (cor['streams'], cor['comparisons'], cor['min_q'], cor['exact_48k'])],
